@@ -547,23 +547,7 @@ func (in *Interp) stmt(s ast.Stmt) {
 		}
 		lc := &loopCtl{loop: true, brk: False, cont: False}
 		in.ctl = append(in.ctl, lc)
-		for iter := 0; ; iter++ {
-			if iter > 4096 {
-				in.fail(x, "loop does not terminate within 4096 unrolled iterations")
-			}
-			if in.live == False {
-				break
-			}
-			if x.Cond != nil {
-				c := in.cond(x.Cond)
-				c = in.D.M.And(c, in.live)
-				if c == False {
-					break
-				}
-				if c != in.live {
-					in.fail(x, "loop condition is symbolic (trip count not constant)")
-				}
-			}
+		bodyAndPost := func() {
 			lc.cont = False
 			in.block(x.Body.List)
 			in.live = in.D.M.Or(in.live, lc.cont) // continue rejoins before the post statement
@@ -572,6 +556,40 @@ func (in *Interp) stmt(s ast.Stmt) {
 				in.stmt(x.Post)
 			}
 		}
+		symbolic := 0
+		var run func(iter int)
+		run = func(iter int) {
+			for ; ; iter++ {
+				if iter > 4096 {
+					in.fail(x, "loop does not terminate within 4096 unrolled iterations")
+				}
+				if in.live == False {
+					return
+				}
+				if x.Cond != nil {
+					c0 := in.cond(x.Cond)
+					c := in.D.M.And(c0, in.live)
+					if c == False {
+						return
+					}
+					if c != in.live {
+						// the condition depends on the input: `for c { body }` is `if c { body; for c { body } }`; the
+						// paths on which it is false leave the loop here and are merged back by the branch
+						symbolic++
+						if symbolic > 48 {
+							in.fail(x, "loop condition is symbolic on more than 48 iterations")
+						}
+						in.branch(c0, func() {
+							bodyAndPost()
+							run(iter + 1)
+						}, nil)
+						return
+					}
+				}
+				bodyAndPost()
+			}
+		}
+		run(0)
 		in.ctl = in.ctl[:len(in.ctl)-1]
 		in.live = in.D.M.Or(in.live, lc.brk)
 		in.D.Cond = in.live
@@ -750,6 +768,14 @@ func (in *Interp) stmt(s ast.Stmt) {
 		// deferred unlocks and the like have no effect on the abstract values tracked here
 		if call, ok := x.Call.Fun.(*ast.SelectorExpr); ok && strings.HasSuffix(call.Sel.Name, "nlock") {
 			return
+		}
+		// handing a pooled object back when the function returns: no effect on the values of this activation
+		if call, ok := x.Call.Fun.(*ast.SelectorExpr); ok {
+			if s, ok := in.info().Selections[call]; ok && s.Kind() == types.MethodVal {
+				if fn, ok := s.Obj().(*types.Func); ok && fn.FullName() == "(*sync.Pool).Put" {
+					return
+				}
+			}
 		}
 		in.fail(x, "defer")
 	default:
